@@ -13,10 +13,13 @@ INF = float("inf")
 
 BIN_CFGS = [(2, 0.0, 2.0), (4, -1.0, 1.0), (3, 0.0, 3.0), (1, -1.0, 1.0), (8, -4.0, 4.0),
             (10, 0.0, 1.0), (3, 0.0, 0.3), (2, 1 / 3, 2 / 3), (1, 0.0, 0.1), (5, 5.0, 5.5), (7, -0.7, 0.7), (6, 0.1, 0.7),
-            (12, 0.0, 1.2), (40, 1e9, 1e9 + 1)]
-SPARSE_CFGS = [(1.0, 0.0), (0.5, -0.25), (2.0, 1.0), (0.1, 0.0), (1 / 3, 0.05), (0.7, -0.35), (0.3, 0.0)]
-CENTRAL_CFGS = [[0.0, 1.0, 3.0], [-1.0, 1.0], [-0.1, 0.2, 0.7], [1 / 3, 2 / 3, 1.0, 2.0]]
-IRR_CFGS = [[0.0, 1.0], [-1.0, 0.5, 2.0], [0.1, 0.2, 0.3], [1 / 3, 2 / 3]]
+            (12, 0.0, 1.2), (40, 1e9, 1e9 + 1), (3, -0.3, 0.6), (7, 0.0, 0.7), (100, 0.0, 1.0), (9, -1e-3, 1e-3),
+            (6, -1.0, 0.2), (11, 0.05, 0.6), (2, -1e6, 1e6), (5, 0.0, 1e-7)]
+SPARSE_CFGS = [(1.0, 0.0), (0.5, -0.25), (2.0, 1.0), (0.1, 0.0), (1 / 3, 0.05), (0.7, -0.35), (0.3, 0.0), (0.3, 0.1),
+               (1e-3, 5.0), (1e6, -0.5), (0.01, 0.0), (3.0, -1.5)]
+CENTRAL_CFGS = [[0.0, 1.0, 3.0], [-1.0, 1.0], [-0.1, 0.2, 0.7], [1 / 3, 2 / 3, 1.0, 2.0], [0.0, 0.1, 0.3, 0.6, 1.0],
+                [-1e6, 0.0, 1e6]]
+IRR_CFGS = [[0.0, 1.0], [-1.0, 0.5, 2.0], [0.1, 0.2, 0.3], [1 / 3, 2 / 3], [0.0], [-0.7, -0.1, 0.1, 0.7, 1e6]]
 
 
 def is_dyadic(vals):
